@@ -22,5 +22,6 @@ old['notes'] = ('Every check: lake build + axiom audit of the property theorems 
                 '(imported from /repo or $PYHAM_REPO) and through the compiled Lean model driver, compared per property; oracles on pyham objects turn a '
                 'disagreement into a replayable failing input. VERIF_SEED seeds all generation.')
 old['not_applicable'] = []
+old['hooks']['source_commits'] = []
 json.dump(old, open(os.path.join(V, 'MANIFEST.json'), 'w'), indent=1)
 print('manifest: %d checks' % len(checks))
